@@ -231,10 +231,13 @@ impl Atomics {
             value.to_bigint(context)?.into()
         } else {
             // 3. Otherwise, let v be 𝔽(? ToIntegerOrInfinity(value)).
-            match value.to_integer_or_infinity(context)? {
-                IntegerOrInfinity::PositiveInfinity => f64::INFINITY,
-                IntegerOrInfinity::Integer(i) => i as f64,
-                IntegerOrInfinity::NegativeInfinity => f64::NEG_INFINITY,
+            // NOTE: `IntegerOrInfinity::Integer` holds an `i64` and would saturate huge finite values.
+            let number = value.to_number(context)?;
+            if number.is_nan() {
+                0.0
+            } else {
+                // `+ 0.0` turns -0 into +0
+                number.trunc() + 0.0
             }
             .into()
         };
